@@ -199,6 +199,9 @@ func Main(h Harness) {
 				}
 				name, replay := h.CaseName(args.Tier, t.Batch, ci)
 				sig := kind + ": " + crashClass(what)
+				if site := crashSite(o.Stderr); site != "" {
+					sig += " in " + site
+				}
 				rep.Violate(sig, fmt.Sprintf("case %s\n%s", name, lib.FatalLine(stripProgress(o.Stderr))+"\n"+tailLines(stripProgress(o.Stderr), 25)), replay)
 				if crashes < 500 {
 					retry = append(retry, wtask{Batch: t.Batch, From: ci + 1})
@@ -283,4 +286,30 @@ func crashClass(s string) string {
 		s = s[:120]
 	}
 	return s
+}
+
+// crashSite names a function of the module under test on the crashing goroutine's stack: the innermost one,
+// or - for unbounded recursion, where the innermost frame is arbitrary - the alphabetically first among the
+// innermost 60 frames (a stable representative of the cycle).
+func crashSite(stderr string) string {
+	lines := strings.Split(stderr, "\n")
+	for i, l := range lines {
+		if strings.HasPrefix(l, "goroutine ") && strings.Contains(l, "[running]") {
+			rest := lines[i+1:]
+			if !strings.Contains(stderr, "stack exceeds") {
+				return lib.PanicSite(strings.Join(rest, "\n"))
+			}
+			best := ""
+			n := 0
+			for j := 0; j+1 < len(rest) && n < 60; j += 2 {
+				n++
+				fn := lib.PanicSite(rest[j])
+				if fn != "?" && (best == "" || fn < best) {
+					best = fn
+				}
+			}
+			return "a cycle through " + best
+		}
+	}
+	return ""
 }
